@@ -36,7 +36,7 @@ PLAN = {
                  "min_counters": {"faults_injected": 100000, "suite_run_components_calls": 7000}},
 }
 
-FAULTS = ("skip", "ce", "cpe", "timeout", "boom", "keyerr", "valerr")
+FAULTS = ("skip", "ce", "cpe", "timeout", "boom", "keyerr", "valerr", "typeerr")
 
 
 def directed(tier):
